@@ -116,6 +116,10 @@ def oracle(q, o):
         return None
     if t[0] == "QEq":
         return None
+    if t[0].startswith("QNat"):
+        return native_oracle(t, v)
+    if t[0] == "QMkInt":
+        t = ["QIntChecked"] + t[1:]
     if t[0] == "QIntChecked":
         n = int(t[1])
         inr = -(1 << 47) <= n < (1 << 47)
@@ -164,6 +168,37 @@ def oracle(q, o):
             return e
         if not (r[14] == 1 and r[15] == int(t[1])):
             return f"nested_fn_marker({t[1]}) reads back as {r[15]}"
+    return None
+
+
+NKIND = ["null", "int", "float", "bool", "pointer"]
+
+
+def native_oracle(t, v):
+    """host-side copy of the scheme (native/src/value.rs): exactly one kind, constructors produce their
+    kind and read back what was stored"""
+    if t[0] == "QNat":
+        ks = [NKIND[i] for i in range(5) if v[i]]
+        return None if len(ks) == 1 else f"native: word {int(t[1]):#x} is recognised as {ks or 'no kind'}"
+    w, r = v[0], v[1:]
+    ks = [NKIND[i] for i in range(5) if r[i]]
+    want = {"QNatInt": "int", "QNatFloat": "float", "QNatBool": "bool", "QNatNull": "null"}[t[0]]
+    if ks != [want]:
+        return f"native: {t[0][4:].lower()}({' '.join(t[1:])}) = {w:#x} is recognised as {ks or 'no kind'} instead of exactly [{want}]"
+    if t[0] == "QNatInt":
+        n = int(t[1])
+        exp = ((n + (1 << 47)) % (1 << 48)) - (1 << 47)
+        if r[5] != exp:
+            return f"native: value_int({n}) reads back as {r[5]}, expected {exp}"
+    if t[0] == "QNatFloat":
+        b = int(t[1])
+        if is_nan_bits(b):
+            if r[6] != -1:
+                return f"native: value_float(NaN {b:#x}) reads back as non-NaN {r[6]:#x}"
+        elif r[6] != b:
+            return f"native: value_float(bits {b:#x}) reads back as {r[6]:#x}"
+    if t[0] == "QNatBool" and r[7] != (1 if t[1] == "true" else 0):
+        return "native: value_bool reads back wrong"
     return None
 
 
